@@ -22,6 +22,15 @@ func (e *Engine) execInstr(st *State, fr *Frame, in ssa.Instruction) {
 			if _, isVar := obj.(*types.Var); isVar {
 				fr.names[obj.Name()] = x.X
 				fr.nameAddr[obj.Name()] = x.IsAddr
+				// a reference to a variable that lives in a cell is a load of that cell: bind the
+				// name to the cell so that contract expressions see its current value
+				if ld, ok := x.X.(*ssa.UnOp); ok && !x.IsAddr && ld.Op == token.MUL {
+					switch ld.X.(type) {
+					case *ssa.Alloc, *ssa.FreeVar, *ssa.Global:
+						fr.names[obj.Name()] = ld.X
+						fr.nameAddr[obj.Name()] = true
+					}
+				}
 				delete(fr.nameOver, obj.Name())
 			}
 		}
@@ -101,7 +110,9 @@ func (e *Engine) execInstr(st *State, fr *Frame, in ssa.Instruction) {
 	case *ssa.Store:
 		p := e.get(st, fr, x.Addr).(VPtr)
 		e.assertNonNil(st, fr, fr.sites[x], p)
-		e.storePtr(st, p, e.get(st, fr, x.Val))
+		val := e.get(st, fr, x.Val)
+		st.escape(val)
+		e.storePtr(st, p, val)
 	case *ssa.Convert:
 		fr.vals[x] = e.convert(st, fr, x, e.get(st, fr, x.X), x.X.Type(), x.Type())
 	case *ssa.ChangeType:
@@ -262,8 +273,19 @@ func (e *Engine) execUnOp(st *State, fr *Frame, x *ssa.UnOp) {
 		for _, f := range rangeFacts(val, t) {
 			st.Assume(f)
 		}
-		for _, f := range e.allocFacts(st, val, t) {
-			st.Assume(f)
+		if e.ptrUntouched(st, p) && st.next0.S != "" {
+			// the cell still holds its value from the pre-state: references in it were
+			// allocated before the function started
+			saved := st.next
+			st.next = st.next0
+			for _, f := range e.allocFacts(st, val, t) {
+				st.Assume(f)
+			}
+			st.next = saved
+		} else {
+			for _, f := range e.allocFacts(st, val, t) {
+				st.Assume(f)
+			}
 		}
 		// function values loaded from the heap may be known closures
 		fr.vals[x] = val
@@ -907,8 +929,9 @@ func copyHeap(h map[string]Term) map[string]Term {
 	return c
 }
 
-// havocLoopHeap havocs the heap locations the loop body may write.
-// Stores through pointers whose base object is loop-invariant havoc only that object.
+// havocLoopHeap havocs the heap locations the loop body may write: single objects when the written
+// object is loop-invariant, all objects of one element type when it is not, everything when the
+// body calls code whose effects are unknown.
 func (e *Engine) havocLoopHeap(st *State, fr *Frame, head *ssa.BasicBlock) {
 	body := fr.loops.body[head]
 	inLoop := func(v ssa.Value) bool {
@@ -918,34 +941,102 @@ func (e *Engine) havocLoopHeap(st *State, fr *Frame, head *ssa.BasicBlock) {
 		return false
 	}
 	havocAll := false
-	type target struct {
-		name string
-		sort string
-		ref  Term
+	type objTarget struct {
+		prefix string
+		ref    Term
 	}
-	var targets []target
+	var objs []objTarget
+	types_ := map[string]bool{}
+	prefixRoots := map[string]types.Type{}
+	prefixMaps := map[string]*types.Map{}
+	var chains []objTarget
+	add := func(prefix string, base ssa.Value, refOf func(Value) (Term, bool)) {
+		// make sure the components exist on this path before they are havocked
+		if root, ok := prefixRoots[prefix]; ok {
+			for _, c := range flatten(root) {
+				e.heapGet(st, heapName(root, c.Path), arrOf(arrOf(c.Sort)))
+			}
+		}
+		if mt, ok := prefixMaps[prefix]; ok {
+			dom, card, vals := e.mapHeaps(mt)
+			for _, h := range append([]heapRef{dom, card}, vals...) {
+				e.heapGet(st, h.name, h.sort)
+			}
+		}
+		if base != nil && !inLoop(base) {
+			if v, ok := fr.vals[base]; ok {
+				if r, ok := refOf(v); ok {
+					objs = append(objs, objTarget{prefix, r})
+					return
+				}
+			}
+		}
+		types_[prefix] = true
+	}
+	refOfAny := func(v Value) (Term, bool) {
+		switch x := v.(type) {
+		case VSlice:
+			return x.Arr, true
+		case VPtr:
+			return x.Ref, true
+		case Term:
+			return x, true
+		}
+		return Term{}, false
+	}
 	for b := range body {
 		for _, in := range b.Instrs {
 			switch x := in.(type) {
 			case *ssa.Store:
-				// find base object
-				base, root, prefixOK := e.storeBase(fr, x.Addr, inLoop)
-				if !prefixOK {
+				prefix, base, root := storeRoot(x.Addr)
+				if prefix == "" {
 					havocAll = true
 					continue
 				}
-				pt := x.Addr.Type().Underlying().(*types.Pointer).Elem()
-				_ = pt
-				targets = append(targets, target{name: root, ref: base})
+				prefixRoots[prefix] = root
+				add(prefix, base, refOfAny)
 			case *ssa.MapUpdate:
-				havocAll = true
+				mt := under(x.Map.Type()).(*types.Map)
+				prefixMaps["M!"+heapTypeName(mt.Key())+"!"+heapTypeName(mt.Elem())+"!"] = mt
+				add("M!"+heapTypeName(mt.Key())+"!"+heapTypeName(mt.Elem())+"!", x.Map, refOfAny)
 			case *ssa.Call:
-				if !e.callIsPure(fr, x.Common()) {
+				c := x.Common()
+				if bi, ok := c.Value.(*ssa.Builtin); ok {
+					switch bi.Name() {
+					case "append", "copy":
+						if sl, ok := under(c.Args[0].Type()).(*types.Slice); ok {
+							prefix := "A!" + heapTypeName(sl.Elem()) + "!"
+							prefixRoots[prefix] = sl.Elem()
+							// x = append(x, ...) chains: only the entry object and fresh objects are written
+							if entry := appendChainEntry(c.Args[0], head, inLoop); entry != nil {
+								v, ok := fr.vals[entry]
+								if cst, isConst := entry.(*ssa.Const); isConst {
+									v, ok = e.constValue(cst), true
+								}
+								if ok {
+									if s, ok := v.(VSlice); ok {
+										for _, cc := range flatten(sl.Elem()) {
+											e.heapGet(st, heapName(sl.Elem(), cc.Path), arrOf(arrOf(cc.Sort)))
+										}
+										chains = append(chains, objTarget{prefix, s.Arr})
+										continue
+									}
+								}
+							}
+							add(prefix, c.Args[0], refOfAny)
+							continue
+						}
+					case "delete":
+						mt := under(c.Args[0].Type()).(*types.Map)
+						prefixMaps["M!"+heapTypeName(mt.Key())+"!"+heapTypeName(mt.Elem())+"!"] = mt
+						add("M!"+heapTypeName(mt.Key())+"!"+heapTypeName(mt.Elem())+"!", c.Args[0], refOfAny)
+						continue
+					}
+				}
+				if !e.callIsPure(fr, c) {
 					havocAll = true
 				}
-			case *ssa.Send, *ssa.Select, *ssa.Go:
-				havocAll = true
-			case *ssa.Defer:
+			case *ssa.Send, *ssa.Select, *ssa.Go, *ssa.Defer:
 				havocAll = true
 			}
 		}
@@ -954,72 +1045,144 @@ func (e *Engine) havocLoopHeap(st *State, fr *Frame, head *ssa.BasicBlock) {
 		e.havocAllHeap(st, "loop")
 		return
 	}
-	// havoc objects: all components whose name starts with the root type prefix, at ref
-	for _, t := range targets {
-		for name, h := range st.heap {
-			if strings.HasPrefix(name, t.name) {
+	names := sortedKeys(st.heap)
+	// append chains: every object other than the chain's entry object that existed at loop entry
+	// keeps its contents
+	entryNext := st.next
+	chainDone := map[string]bool{}
+	for _, t := range chains {
+		if types_[t.prefix] {
+			continue
+		}
+		var others []Term
+		for _, u := range chains {
+			if u.prefix == t.prefix {
+				others = append(others, u.ref)
+			}
+		}
+		if chainDone[t.prefix] {
+			continue
+		}
+		chainDone[t.prefix] = true
+		for _, name := range names {
+			if !strings.HasPrefix(name, t.prefix) {
+				continue
+			}
+			old := st.heap[name]
+			fresh := e.sym.Fresh("Hchain!"+name, old.Sort)
+			var neqs []string
+			for _, o := range others {
+				neqs = append(neqs, fmt.Sprintf("(not (= qr %s))", o.S))
+			}
+			q := fmt.Sprintf("(forall ((qr Int)) (! (=> (and %s (< qr %s)) (= (select %s qr) (select %s qr))) :pattern ((select %s qr))))",
+				strings.Join(neqs, " "), entryNext.S, fresh.S, old.S, fresh.S)
+			st.heap[name] = fresh
+			st.Assume(Term{q, SBool})
+		}
+	}
+	for prefix := range types_ {
+		for _, name := range names {
+			if strings.HasPrefix(name, prefix) {
+				st.heap[name] = e.sym.Fresh("Hloop!"+name, st.heap[name].Sort)
+			}
+		}
+	}
+	for _, t := range objs {
+		if types_[t.prefix] {
+			continue
+		}
+		for _, name := range names {
+			if strings.HasPrefix(name, t.prefix) {
+				h := st.heap[name]
 				fresh := e.sym.Fresh("loopobj", elemSort(h.Sort))
 				st.heap[name] = Store(h, t.ref, fresh)
 			}
 		}
 	}
+	// new objects may have been allocated by earlier iterations
+	nx := e.sym.Fresh("next", SInt)
+	st.Assume(Ge(nx, st.next))
+	st.next = nx
 }
 
-// storeBase resolves the heap root prefix and the base object ref of a store address, provided
-// the base pointer/slice is defined outside the loop.
-func (e *Engine) storeBase(fr *Frame, addr ssa.Value, inLoop func(ssa.Value) bool) (Term, string, bool) {
+// appendChainEntry recognises x = append(x, ...) chains: b must be a phi of the loop head whose
+// values inside the loop all derive from b by append; the value flowing in from outside is returned.
+func appendChainEntry(b ssa.Value, head *ssa.BasicBlock, inLoop func(ssa.Value) bool) ssa.Value {
+	phi, ok := b.(*ssa.Phi)
+	if !ok || phi.Block() != head {
+		return nil
+	}
+	var entry ssa.Value
+	visited := map[ssa.Value]bool{}
+	var derives func(v ssa.Value) bool
+	derives = func(v ssa.Value) bool {
+		if v == b {
+			return true
+		}
+		if visited[v] {
+			return true
+		}
+		visited[v] = true
+		switch x := v.(type) {
+		case *ssa.Call:
+			if bi, ok := x.Common().Value.(*ssa.Builtin); ok && bi.Name() == "append" {
+				return derives(x.Common().Args[0])
+			}
+		case *ssa.Phi:
+			if !inLoop(x) {
+				return false
+			}
+			for _, ed := range x.Edges {
+				if !derives(ed) {
+					return false
+				}
+			}
+			return true
+		}
+		return false
+	}
+	for _, ed := range phi.Edges {
+		if inLoop(ed) || ed == b {
+			if !derives(ed) {
+				return nil
+			}
+			continue
+		}
+		if entry != nil && entry != ed {
+			return nil
+		}
+		entry = ed
+	}
+	return entry
+}
+
+// storeRoot returns the heap prefix ("A!<root type>!") written by a store through addr, and the
+// SSA value denoting the written object (pointer, slice or alloc), or "" when unknown.
+func storeRoot(addr ssa.Value) (string, ssa.Value, types.Type) {
 	for {
 		switch a := addr.(type) {
 		case *ssa.IndexAddr:
-			if inLoop(a.X) {
-				// the indexed slice itself is computed in the loop
-				if ia, ok := a.X.(*ssa.Slice); ok {
-					addr = ia.X
-					_ = ia
-				}
-				return Term{}, "", false
-			}
-			v, ok := fr.vals[a.X]
-			if !ok {
-				return Term{}, "", false
-			}
-			switch s := v.(type) {
-			case VSlice:
-				et := under(a.X.Type()).(*types.Slice).Elem()
-				return s.Arr, "A!" + heapTypeName(et) + "!", true
-			case VPtr:
-				return s.Ref, "A!" + heapTypeName(s.Root) + "!", true
-			}
-			return Term{}, "", false
-		case *ssa.FieldAddr:
-			if inLoop(a.X) {
+			switch xt := under(a.X.Type()).(type) {
+			case *types.Slice:
+				return "A!" + heapTypeName(xt.Elem()) + "!", a.X, xt.Elem()
+			case *types.Pointer:
 				addr = a.X
 				continue
 			}
-			v, ok := fr.vals[a.X]
-			if !ok {
-				return Term{}, "", false
-			}
-			p := v.(VPtr)
-			return p.Ref, "A!" + heapTypeName(p.Root) + "!", true
-		case *ssa.Alloc:
-			if inLoop(a) {
-				return Term{}, "", false
-			}
-			p := fr.vals[a].(VPtr)
-			return p.Ref, "A!" + heapTypeName(p.Root) + "!", true
+			return "", nil, nil
+		case *ssa.FieldAddr:
+			addr = a.X
+			continue
 		default:
-			if inLoop(addr) {
-				return Term{}, "", false
-			}
-			v, ok := fr.vals[addr]
+			pt, ok := under(addr.Type()).(*types.Pointer)
 			if !ok {
-				return Term{}, "", false
+				return "", nil, nil
 			}
-			if p, ok := v.(VPtr); ok {
-				return p.Ref, "A!" + heapTypeName(p.Root) + "!", true
+			root := pt.Elem()
+			if at, ok := under(root).(*types.Array); ok {
+				root = at.Elem()
 			}
-			return Term{}, "", false
+			return "A!" + heapTypeName(root) + "!", addr, root
 		}
 	}
 }
@@ -1030,8 +1193,23 @@ func (e *Engine) havocAllHeap(st *State, why string) {
 		names = append(names, n)
 	}
 	sort.Strings(names)
+	// local cells (Alloc'd variables of the function under execution that have not escaped) survive
+	var locals []localCell
+	for _, lc := range st.locals {
+		locals = append(locals, lc)
+	}
+	sort.Slice(locals, func(i, j int) bool { return locals[i].ref.S < locals[j].ref.S })
 	for _, n := range names {
-		st.heap[n] = e.sym.Fresh("Hhavoc!"+n, st.heap[n].Sort)
+		old := st.heap[n]
+		fresh := e.sym.Fresh("Hhavoc!"+n, old.Sort)
+		for _, lc := range locals {
+			if strings.HasPrefix(n, lc.prefix) {
+				fresh = Store(fresh, lc.ref, Select(old, lc.ref))
+			}
+		}
+		if fresh.S != st.heap[n].S {
+			e.heapSet(st, n, fresh)
+		}
 	}
 	// heap components not yet touched on this path keep their initial constant, which would be
 	// unsound after a havoc: mark the state so that later first uses get fresh constants.
@@ -1046,6 +1224,37 @@ func rangeKeyName(rs *ast.RangeStmt) string {
 		return id.Name
 	}
 	return ""
+}
+
+// ptrUntouched reports whether every heap component the pointer reads is still the initial heap.
+func (e *Engine) ptrUntouched(st *State, p VPtr) bool {
+	if st.epoch != "" {
+		return false
+	}
+	var t types.Type
+	func() {
+		defer func() { recover() }()
+		t = pointeeType(p)
+	}()
+	if t == nil {
+		return false
+	}
+	prefix, _ := pathPrefix(p.Path)
+	for _, c := range flatten(t) {
+		name := heapName(p.Root, prefix+c.Path)
+		if p.ArrLen >= 0 {
+			name = heapName(p.Root, c.Path)
+		}
+		h, ok := st.heap[name]
+		if !ok {
+			continue
+		}
+		s := strings.TrimPrefix(h.S, "|")
+		if !strings.HasPrefix(s, "H0!") {
+			return false
+		}
+	}
+	return true
 }
 
 // assertNonNil emits the nil-dereference obligation unless the pointer is non-nil by construction.
